@@ -24,9 +24,11 @@ def attr_pool(fname, picklable=False):
     if fname == "phsp_factor":
         return [("c", U.qual(ps.PhaseSpaceFactor)), ("c", U.qual(ps.PhaseSpaceFactorSWave)),
                 ("c", U.qual(ps.EqualMassPhaseSpaceFactor)), ("c", U.qual(ps.PhaseSpaceFactorComplex)),
-                ("o", "uneval_ir.pool_function"), ("o", "uneval_ir.pool_function2")] + twins
+                ("o", "uneval_ir.pool_function"), ("o", "uneval_ir.pool_function2"),
+                ("o", "uneval_ir.ValueObj(1/2)"), ("o", "uneval_ir.ValueObj(3/1)")] + twins
     return [("n",), ("n",)] + [("s", s) for s in STRS] + [("c", "uneval_ir.PoolClass"),
-                                                           ("o", "uneval_ir.pool_function2"), ("u", "['a', 'b']")] + twins[:2]
+                                                           ("o", "uneval_ir.pool_function2"), ("u", "['a', 'b']"),
+                                                           ("o", "uneval_ir.ValueObj(1/2)")] + twins[:2]
 
 
 def is_array_class(q):
